@@ -224,6 +224,100 @@ def tokRun : Nat → Spec.T2.Abs → List Nat → List Spec.T2.Tok → Option (S
               if k ≤ r.length then num (.mask (o == .cntrmask) (r.take k)) (r.drop k) else none
           else num (.op o) r
 
+/-- association list update that refuses a different second binding -/
+def bindBody (m : List (Nat × Spec.T2.PProgram)) (i : Nat) (q : Spec.T2.PProgram) :
+    Option (List (Nat × Spec.T2.PProgram)) :=
+  match m.find? (·.1 == i) with
+  | some (_, q') => if q' == q then some m else none
+  | none => some ((i, q) :: m)
+
+/-- bytes → tokens with calls: follows calls into the byte tables (mask lengths depend on the grammar
+state), records the token-level body of every subroutine it enters -/
+def tokP (lb gb : Array (List Nat)) :
+    Nat → Nat → Spec.T2.Abs → List Nat → List Spec.T2.PTok →
+    List (Nat × Spec.T2.PProgram) × List (Nat × Spec.T2.PProgram) →
+    Option (Spec.T2.Abs × Spec.T2.PProgram × (List (Nat × Spec.T2.PProgram) × List (Nat × Spec.T2.PProgram)))
+  | 0, _, _, _, _, _ => none
+  | _ + 1, _, a, [], acc, m => some (a, acc.reverse, m)
+  | f + 1, dep, a, b0 :: rest, acc, m =>
+    if b0 = 11 ∧ rest = [] then some (a, acc.reverse, m)   -- the closing `return` of a body
+    else
+      let tokc (t : Spec.T2.Tok) (r : List Nat) :=
+        (Spec.T2.wfTok a t).bind fun a' => tokP lb gb f dep a' r (.tok t :: acc) m
+      -- an integer directly followed by callsubr / callgsubr is a call
+      let intc (v : Int) (r : List Nat) :=
+        match r with
+        | 10 :: r' | 29 :: r' =>
+          let g := r.head? == some 29
+          let tbl := if g then gb else lb
+          let idx := v + bias tbl.size
+          if idx < 0 ∨ dep = 0 ∨ a.ended ∨ a.depth + 1 > 48 then none
+          else
+            match tbl[idx.toNat]? with
+            | none => none
+            | some body =>
+              match tokP lb gb f (dep - 1) a body [] m with
+              | none => none
+              | some (a2, q, m2) =>
+                let m3 := if g then (bindBody m2.2 idx.toNat q).map (fun x => (m2.1, x))
+                          else (bindBody m2.1 idx.toNat q).map (fun x => (x, m2.2))
+                match m3 with
+                | none => none
+                | some m3 =>
+                  if a2.ended then (if r'.isEmpty then some (a2, (Spec.T2.PTok.call g idx.toNat :: acc).reverse, m3) else none)
+                  else tokP lb gb f dep a2 r' (.call g idx.toNat :: acc) m3
+        | _ => tokc (.int v) r
+      if 32 ≤ b0 ∧ b0 ≤ 246 then intc ((b0 : Int) - 139) rest
+      else if 247 ≤ b0 ∧ b0 ≤ 250 then
+        match rest with
+        | b1 :: r => intc (((b0 : Int) - 247) * 256 + b1 + 108) r
+        | [] => none
+      else if 251 ≤ b0 ∧ b0 ≤ 254 then
+        match rest with
+        | b1 :: r => intc ((251 - (b0 : Int)) * 256 - b1 - 108) r
+        | [] => none
+      else if b0 = 28 then
+        match rest with
+        | b1 :: b2 :: r => intc (toI16 (b1 * 256 + b2)) r
+        | _ => none
+      else if b0 = 255 then
+        match rest with
+        | b1 :: b2 :: b3 :: b4 :: r => tokc (.fixed (toI32 (((b1 * 256 + b2) * 256 + b3) * 256 + b4))) r
+        | _ => none
+      else
+        let oc : Option (Nat × List Nat) :=
+          if b0 = 12 then (match rest with | b1 :: r => some (12 * 256 + b1, r) | [] => none) else some (b0, rest)
+        match oc with
+        | none => none
+        | some (c, r) =>
+          match opOfCode c with
+          | none => none
+          | some o =>
+            if o == .hintmask || o == .cntrmask then
+              match Spec.T2.afterWidth a .hintmask with
+              | none => none
+              | some n =>
+                let k := (a.nStems + n / 2 + 7) / 8
+                if k ≤ r.length then tokc (.mask (o == .cntrmask) (r.take k)) (r.drop k) else none
+            else tokc (.op o) r
+
+def tableOf (n : Nat) (m : List (Nat × Spec.T2.PProgram)) : List Spec.T2.PProgram :=
+  (m.foldl (fun (a : Array Spec.T2.PProgram) e => a.setIfInBounds e.1 e.2) (Array.replicate n [])).toList
+
+/-- is the charstring (with its byte tables) the encoding of a program `wfCheckP` accepts? -/
+@[noinline] def wfFlagsP (env : Env) (code : List Nat) : String :=
+  let lb := env.subrs.toArray
+  let gb := env.gsubrs.toArray
+  let fuel := code.length + 4 * (lb.size + gb.size) + 2000
+  match tokP lb gb fuel 10 {} code [] ([], []) with
+  | none => "nowf"
+  | some (a, p, m) =>
+    let T : Spec.T2.Tables := ⟨tableOf lb.size m.1, tableOf gb.size m.2⟩
+    if a.ended && Spec.T2.encodeP T p == code && (T.env 0 0).subrs == env.subrs && (T.env 0 0).gsubrs == env.gsubrs
+        && Spec.T2.wfCheckP T fuel p then
+      (if Spec.T2.agreesCheckP T p then "wf agrees" else "wf")
+    else "nowf"
+
 @[noinline] def wfFlags (code : List Nat) : String :=
   match tokRun (code.length + 1) {} code [] with
   | some (a, toks) =>
@@ -269,7 +363,10 @@ def handle (op : String) (fs : List (String × String)) : String :=
     | _, _ => "bad-case"
   else if op == "t2.wf" then
     match getField fs "code" >>= hexToNats with
-    | some code => wfFlags code
+    | some code =>
+      match parseEnv fs with
+      | some env => if env.subrs.isEmpty && env.gsubrs.isEmpty then wfFlags code else wfFlagsP env code
+      | none => wfFlags code
     | none => "bad-case"
   else if op == "t2.q" then
     -- diagnosis: run with an explicit quirk vector (10 characters 0/1, field order of `Quirks`)
